@@ -99,9 +99,14 @@ func (vc *FnVC) order() []*ssa.BasicBlock {
 // keysWrittenInLoop over-approximates the state keys a loop may modify.
 func (vc *FnVC) keysWrittenIn(blocks map[*ssa.BasicBlock]bool) (keys map[string]bool, all bool) {
 	keys = map[string]bool{}
+	vc.loopFresh = map[string]bool{}
 	for b := range blocks {
 		for _, in := range b.Instrs {
-			ws, a := vc.G.instrWrites(vc.fn, in)
+			wsf, a := vc.G.instrWritesFresh(vc.fn, in)
+			ws := wsf.keys
+			for k := range wsf.fresh {
+				vc.loopFresh[k] = true
+			}
 			if a {
 				all = true
 			}
@@ -381,11 +386,40 @@ func (vc *FnVC) mergeInto(b *ssa.BasicBlock) *State {
 		}
 	}
 	preAlloc := vc.get(st, "$alloc")
+	// keys written in the loop only at objects allocated by this function: havocked too, but every object that
+	// existed when the function was entered keeps its value
+	var freshOnly []string
+	for k := range vc.loopFresh {
+		if !keys[k] && !all {
+			freshOnly = append(freshOnly, k)
+			keys[k] = true
+			if vc.keys[k] == nil {
+				if ki := vc.G.keyInfo(k); ki != nil {
+					vc.keyFrom(ki)
+				}
+			}
+		}
+	}
+	pre := map[string]string{}
+	for _, k := range freshOnly {
+		if vc.keys[k] != nil {
+			pre[k] = vc.get(st, k)
+		}
+	}
 	for _, k := range sortedKeys(keys) {
 		if vc.keys[k] == nil {
 			continue
 		}
 		vc.havocKey(st, k)
+	}
+	sort.Strings(freshOnly)
+	for _, k := range freshOnly {
+		ki := vc.keys[k]
+		if ki == nil || !strings.HasPrefix(ki.Sort, "(Array Int ") {
+			continue
+		}
+		cur := vc.get(st, k)
+		vc.assume(st, fmt.Sprintf("(forall ((r Int)) (! (=> (<= (ref.root r) %s) (= (select %s r) (select %s r))) :pattern ((select %s r))))", entrySym("$alloc"), cur, pre[k], cur))
 	}
 	if keys["$alloc"] {
 		vc.assume(st, sx(">=", vc.get(st, "$alloc"), preAlloc))
@@ -1127,7 +1161,7 @@ func (vc *FnVC) frameCheck(st *State) {
 				ex = append(ex, smtNot(sx("=", "r", r)))
 			}
 			goal = fmt.Sprintf("(forall ((r Int)) (=> %s (= (select %s r) (select %s r))))",
-				smtAnd(append(ex, sx("<=", "r", alloc0))...), cur, entrySym(k))
+				smtAnd(append(ex, sx("<=", sx("ref.root", "r"), alloc0))...), cur, entrySym(k))
 		} else {
 			goal = sx("=", cur, entrySym(k))
 		}
